@@ -16,6 +16,28 @@ import (
 // model's theorems hold for every segmentation of the header bytes).
 // plan: "ok" | "off:<L>:<partial>:<once>"
 func fencwCase(kind string, r *h.Rand, ps []*party, segs [][]byte, doClose bool, plan string, expectComplete []byte) *h.Case {
+	closes := 0
+	if doClose {
+		closes = 1
+	}
+	return fencwOpsCase(kind, r, ps, segs, closes, nil, plan, expectComplete)
+}
+
+// callRec is a CallFaultWriter that also records the size of every write call
+type callRec struct {
+	h.CallFaultWriter
+	Calls []int
+}
+
+func (c *callRec) Write(p []byte) (int, error) {
+	c.Calls = append(c.Calls, len(p))
+	return c.CallFaultWriter.Write(p)
+}
+
+// fencwOpsCase: the general form — `closes` Close calls after the writes, then the `after` writes (Close twice,
+// Write after Close, Write after a failed Close); plan additionally "call:<idx>:<n>" (write call idx fails once,
+// accepting n bytes — n may be the whole call: a destination that took everything and still reports an error).
+func fencwOpsCase(kind string, r *h.Rand, ps []*party, segs [][]byte, closes int, after [][]byte, plan string, expectComplete []byte) *h.Case {
 	tape := r.Bytes(16 + 64*len(ps) + 64)
 	var recs []age.Recipient
 	var ds []string
@@ -32,15 +54,31 @@ func fencwCase(kind string, r *h.Rand, ps []*party, segs [][]byte, doClose bool,
 	var w io.WriteCloser
 	var err error
 	var hdrCalls []int
+	if strings.HasPrefix(plan, "call:") {
+		var a, b int
+		fmt.Sscanf(plan, "call:%d:%d", &a, &b)
+		cr := &callRec{CallFaultWriter: h.CallFaultWriter{Idx: a, N: b}}
+		withTape(tape, func() {
+			w, err = age.Encrypt(cr, recs...)
+			hdrCalls = append([]int(nil), cr.Calls...)
+		})
+		return fencwFinish(kind, tape, ps, ds, segs, closes, after, plan, expectComplete, w, err, hdrCalls, func() []byte { return cr.Acc })
+	}
 	withTape(tape, func() {
 		w, err = age.Encrypt(fw, recs...)
 		hdrCalls = append([]int(nil), fw.Calls...)
 	})
+	return fencwFinish(kind, tape, ps, ds, segs, closes, after, plan, expectComplete, w, err, hdrCalls, func() []byte { return fw.Acc })
+}
+
+func fencwFinish(kind string, tape []byte, ps []*party, ds []string, segs [][]byte, closes int, after [][]byte, plan string, expectComplete []byte,
+	w io.WriteCloser, err error, hdrCalls []int, accF func() []byte) *h.Case {
+	doClose := closes > 0
 	oracle := ""
 	impl := ""
 	allOK := err == nil
 	if err != nil {
-		impl = "err acc=" + h.Sum(fw.Acc)
+		impl = "err acc=" + h.Sum(accF())
 		if w != nil {
 			oracle = "Encrypt returned both an error and a writer"
 		}
@@ -49,7 +87,7 @@ func fencwCase(kind string, r *h.Rand, ps []*party, segs [][]byte, doClose bool,
 		failed := false
 		for _, s := range segs {
 			n, werr := w.Write(s)
-			tr = append(tr, fmt.Sprintf("%d,%s,%d", n, wErrClass(werr), len(fw.Acc)))
+			tr = append(tr, fmt.Sprintf("%d,%s,%d", n, wErrClass(werr), len(accF())))
 			if werr != nil {
 				allOK = false
 				failed = true
@@ -61,14 +99,32 @@ func fencwCase(kind string, r *h.Rand, ps []*party, segs [][]byte, doClose bool,
 		}
 		if doClose {
 			cerr := w.Close()
-			tr = append(tr, fmt.Sprintf("0,%s,%d", wErrClass(cerr), len(fw.Acc)))
+			tr = append(tr, fmt.Sprintf("0,%s,%d", wErrClass(cerr), len(accF())))
 			if cerr != nil {
 				allOK = false
+				failed = true
 			} else if failed && oracle == "" {
 				oracle = "Close succeeded after the stream had failed"
 			}
 		}
-		impl = "ok " + strings.Join(tr, ";") + " acc=" + h.Sum(fw.Acc)
+		for i := 1; i < closes; i++ {
+			cerr := w.Close()
+			tr = append(tr, fmt.Sprintf("0,%s,%d", wErrClass(cerr), len(accF())))
+			if cerr == nil && oracle == "" {
+				oracle = "a second Close succeeded"
+			}
+		}
+		for _, s := range after {
+			n, werr := w.Write(s)
+			tr = append(tr, fmt.Sprintf("%d,%s,%d", n, wErrClass(werr), len(accF())))
+			if werr == nil && len(s) > 0 && doClose && oracle == "" {
+				oracle = "a Write after Close succeeded"
+			}
+			if n != 0 && werr != nil && oracle == "" {
+				oracle = "a failing Write reported a count"
+			}
+		}
+		impl = "ok " + strings.Join(tr, ";") + " acc=" + h.Sum(accF())
 	}
 	if allOK && doClose && expectComplete != nil && oracle == "" {
 		// no silent loss: every call succeeded => destination holds a complete valid file
@@ -79,7 +135,7 @@ func fencwCase(kind string, r *h.Rand, ps []*party, segs [][]byte, doClose bool,
 			}
 		}
 		if len(ids) > 0 {
-			out, class, _ := realDecryptFile(fw.Acc, ids[:1], false)
+			out, class, _ := realDecryptFile(accF(), ids[:1], false)
 			if class != "ok eof" || string(out) != string(expectComplete) {
 				oracle = fmt.Sprintf("every call reported success but the destination does not hold a complete valid file (%s, %d bytes)", class, len(out))
 			}
@@ -98,11 +154,7 @@ func fencwCase(kind string, r *h.Rand, ps []*party, segs [][]byte, doClose bool,
 	if len(ss) > 0 {
 		segArg = strings.Join(ss, ",")
 	}
-	closes := 0
-	if doClose {
-		closes = 1
-	}
-	line := fmt.Sprintf("fencw %s %s %s %s %s", h.Hex(tape), joinD(ds), segArg, plan, opsLine(segs, closes, nil))
+	line := fmt.Sprintf("fencw %s %s %s %s %s", h.Hex(tape), joinD(ds), segArg, plan, opsLine(segs, closes, after))
 	return &h.Case{Kind: kind, Line: line, Impl: impl, Oracle: oracle, NonTrivial: true, Canon: canonEncW,
 		Note: fmt.Sprintf("recipients=[%s] plan=%s writes=%d close=%v headerWrites=%d", labelsOf(ps), plan, len(segs), doClose, len(hc))}
 }
